@@ -1,6 +1,9 @@
 import Pcore.Proofs.SerPlain
 import Pcore.Proofs.SerB64
 import Pcore.Proofs.SerShared
+import Pcore.Proofs.SerArms
+import Pcore.Proofs.SpanCodec
+import Pcore.Generated.SerArms
 /-!
 # C10 — Rich-data serialization round-trips under every option and consumer capability
 
@@ -35,11 +38,18 @@ Full statement / proved / missing
                              `Frag`    no user hash that the deserializer re-interprets (all keys strings, one of them
                                        `__ptype`): known finding C10-reserved-ptype-key, negation `C10_reserved_key_collision`;
                                        object instances are of the catalogue's types and their attribute names are
-                                       not the reserved keys; and with rich_data=false the value is Data.
-                           The Binary codec is the model's own base64, proved to invert (`unb64_b64`).
-* missing: type definitions that travel in the stream as Pcore::ObjectType instances and are registered by the
-  deserializer, objects with defaulted / typed attributes beyond "the init hash comes back" (C17), RuntimeValue —
-  the harness runs type definitions on the implementation only;
+                                       not the reserved keys; a Timespan payload is the text of some duration; and
+                                       with rich_data=false the value is Data (Binary included when the consumer takes
+                                       Binary as it is).  Nothing else is excluded: see "What `Frag` excludes" below.
+                           Leaf codecs INSIDE the model: Binary = base64, proved to invert (`unb64_b64`); Timespan =
+                           the default format `%D-%H:%M:%S.%-N` as timespantype.go prints and parses it, proved to
+                           invert for every number of nanoseconds (`C10_span_codec`); Regexp = the identity on the
+                           pattern source (that is what the code does; only "the source compiles" is outside).
+* `C10_arms_ok`          — obligation over the table regenerated from serializer.go (second tie): the emit discipline the
+                           model executes is the code's; `C10_impl_*` are the theorems instantiated on that table.
+* missing: that the deserializer REGISTERS type definitions that arrive in the stream (`newTypes`, `AddTypes`; the
+  definitions themselves are modelled, as instances of Pcore::ObjectType, and covered by `C10_roundtrip_partial`);
+  objects with defaulted / typed attributes beyond "the init hash comes back" (C17); RuntimeValue;
   the real leaf codecs (Regexp, SemVer, SemVerRange, Timespan, Timestamp, URI, type text): a leaf is an abstract payload
   `enc` and decoding a `__pvalue` string of a known type name returns it — exercised on the implementation by the direct
   predicate only; `String()` of floats/containers used as non-string keys with rich_data=false and no complex-key
@@ -119,6 +129,18 @@ theorem C10_roundtrip_partial (o : Opts) (cp : Caps) (v : V) (hS : Shared (mkCfg
   unfold deserialize serialize
   rw [hc]; simp only []; rw [hr]
 
+/-! ### leaf codecs inside the model -/
+
+/-- the Timespan codec (default format) inverts: parsing what `format` prints gives the duration back, for every number
+    of nanoseconds, negative ones and fractions with leading zeroes included -/
+theorem C10_span_codec (ns : Int) : parseSpan (printSpan ns) = some ns := span_codec ns
+
+/-- so every Timespan has a payload that meets the round-trip theorem's hypothesis -/
+theorem C10_span_canonical (ns : Int) : canonLeaf .ts (printSpan ns) = true := canonSpan_printSpan ns
+
+example : (printSpan (-50000000) == "-0-00:00:00.05") = true ∧ (printSpan 90500000000 == "0-00:01:30.5") = true ∧
+    parseSpan "1-1:2:3.4" = some 90123400000000 := by decide
+
 /-! ### non-vacuity: the hypotheses are satisfiable by a non-trivial DAG, for every option and capability -/
 
 def longStr : String := "a string long enough to be de-duplicated"
@@ -129,7 +151,7 @@ def sampleHash : V :=
   .hash 2 [(.int 1, .str longStr), (.arr 3 [.int 1, .str "k"], .sens 4 (.bin 5 [1, 2, 3])), (.str "s", .dflt)]
 def sampleDag : V :=
   .arr 1 [sampleHash, sampleHash, .str longStr, .leaf 6 .rx "a.*b" "/a.*b/", .leaf 6 .rx "a.*b" "/a.*b/",
-    .leaf 7 .ts "90" "90", .leaf 8 .ts "90" "90", .hash 9 [(sampleHash, .str longStr)]]
+    .leaf 7 .ts "0-00:01:30.5" "90", .leaf 8 .ts "0-00:01:30.5" "90", .hash 9 [(sampleHash, .str longStr)]]
 
 example : ∀ rich bin cplx, sharedB (mkCfg ⟨rich, true, 2⟩ ⟨bin, cplx, 0⟩) sampleDag = true := by decide
 example : sampleDag.noRes = true := by decide
@@ -174,9 +196,20 @@ example : ∃ d vals', collect (serialize ⟨true, true, 2⟩ ⟨false, false, 0
   · rename_i d vals' hc
     exact ⟨d, vals', hc, by simpa using collect_len _ _ _ _ hc⟩
 
+/-! ### What `Frag` excludes, exactly
+
+`Frag c v` = `v.noRes ∧ (c.rich = false → v.isData c.bin)`.  `noRes` fails only for
+(a) a user hash whose keys are all strings and include `__ptype` — the known finding; `C10_reserved_key_collision`
+    shows the exclusion is needed, for rich_data=true and false alike;
+(b) an object instance whose type is not in the catalogue or that has an attribute named `__ptype` / `__pvalue`
+    (the second cannot be declared in pcore; the first is the model's catalogue);
+(c) a Timespan payload that is not the default-format text of a duration (not a value at all: `C10_span_canonical`).
+`isData` is the property's own reading for rich_data=false (a Regexp deliberately becomes a String there).  What lies
+outside the theorem for other reasons is outside the MODEL's value type: RuntimeValue, types without a string form other than object types, cyclic values. -/
+
 /-- the full statement (no exclusion of reserved keys) — false, see `C10_reserved_key_collision` -/
 def C10_roundtrip_full : Prop :=
-  ∀ (o : Opts) (cp : Caps) (v : V), Shared (mkCfg o cp) v → (o.rich = false → v.isData = true) →
+  ∀ (o : Opts) (cp : Caps) (v : V), Shared (mkCfg o cp) v → (o.rich = false → v.isData cp.bin = true) →
     ∃ r, deserialize (serialize o cp v) = .ok r ∧ r.abs = v.abs
 
 
@@ -202,59 +235,79 @@ theorem C10_reserved_key_collision : ¬ C10_roundtrip_full := by
   simp [V.abs, reservedWitness] at ha
 
 /-- the same with rich_data=false (the value is Data): the hypothesis `noRes` cannot be dropped there either -/
-example : reservedWitness.isData = true ∧
+example : reservedWitness.isData false = true ∧
     deserialize (serialize ⟨false, false, 0⟩ ⟨false, false, 0⟩ reservedWitness) = .ok .dflt := ⟨rfl, rfl⟩
 
-/-! ### the repaired defect "serializer recorded a position for a value whose emitter produced only a back-reference"
+/-! ### second tie: the emit discipline regenerated from serializer.go (fact family `serarms`)
 
-`process` BEFORE the fix stored `values[v] = refIndex` and then ran the emitter.  With rich_data=false and a consumer
-without binary support a Binary is emitted as its base64 text through `toData(level, string)`; when that string was
-seen before, the emitter produces only `AddRef` and no position — but the Binary was recorded at the position the
-NEXT value will take.  The "before" variant below covers the fragment of the witness (strings, Binary, arrays). -/
+`Generated.serArms` is rewritten from the Go source on every run: the statement lists of `addData`/`addArray`/`addHash`,
+the shape of `process`, consumer calls and `refIndex` writes anywhere else, and the arms of `toData`'s type switch.
+The driver executes `toDataE (emitOf Generated.serArms)`.  `SerArmsOK` says: every consumer position is paired with
+exactly one `refIndex++` made before the consumer call, `AddRef` with none, `process` records after the emitter and
+only when a position was consumed, nothing else touches the consumer or the counter, the arms are the transcribed
+ones.  The theorems hold for ANY table satisfying it; dropping an increment (or recording early) breaks `C10_arms_ok`. -/
 
-def enterBefore (c : Cfg) (k : Key) (st : St) : St :=
-  if c.dedup = 0 then st else { st with vals := (k, st.ref) :: st.vals }
+/-- obligation over the regenerated table -/
+theorem C10_arms_ok : SerArmsOK Generated.serArms = true := by decide
 
-def strDataBefore (c : Cfg) (level : Nat) (s : String) (st : St) : Ev × St :=
-  if c.dedup ≥ level ∧ s.utf8ByteSize ≥ c.thr then
-    match seen c (.str s) st with
-    | some r => (.ref r, st)
-    | none => addData (.str s) (enterBefore c (.str s) st)
-  else addData (.str s) st
+theorem C10_table (a : SerArms) (h : SerArmsOK a = true) (c : Cfg) (level : Nat) (v : V) (st : St) :
+    toDataE (emitOf a) c level v st = toData c level v st := by
+  rw [emitOf_ok a h]; exact toDataE_std c level v st
 
-mutual
-def toDataBefore (c : Cfg) (level : Nat) : V → St → Ev × St
-  | .str s, st => strDataBefore c level s st
-  | .bin id bs, st =>
-    match seen c (.ptr id) st with
-    | some r => (.ref r, st)
-    | none =>
-      if c.bin then addData (.bin bs) (enterBefore c (.ptr id) st)
-      else strDataBefore c level (b64 bs) (enterBefore c (.ptr id) st)      -- rich_data=false
-  | .arr id vs, st =>
-    match seen c (.ptr id) st with
-    | some r => (.ref r, st)
-    | none =>
-      let r := listDataBefore c vs (bump (enterBefore c (.ptr id) st))
-      (.arr r.1, r.2)
-  | v, st => toData c level v st
-def listDataBefore (c : Cfg) : List V → St → List Ev × St
-  | [], st => ([], st)
-  | v :: vs, st =>
-    let r1 := toDataBefore c 1 v st
-    let r2 := listDataBefore c vs r1.2
-    (r1.1 :: r2.1, r2.2)
-end
+/-- instantiated on the code as it is now -/
+theorem C10_impl_positions (c : Cfg) (level : Nat) (v : V) (st : St) (vals : List Slot) (d : V) (vals' : List Slot)
+    (h0 : st.ref = vals.length)
+    (hc : collect (toDataE (emitOf Generated.serArms) c level v st).1 vals = .ok (d, vals')) :
+    (toDataE (emitOf Generated.serArms) c level v st).2.ref = vals'.length := by
+  rw [C10_table _ C10_arms_ok] at hc ⊢; exact C10_positions c level v st vals d vals' h0 hc
 
-/-- `['AQID', bin, bin]` where `bin` is one Binary object holding 01 02 03 -/
+theorem C10_impl_caps (o : Opts) (cp : Caps) (v : V) :
+    (serializeE (emitOf Generated.serArms) o cp v).wf (!cp.cplx) (!cp.bin) = true := by
+  rw [serializeE_ok _ C10_arms_ok]; exact C10_caps o cp v
+
+theorem C10_impl_refs_wellformed (o : Opts) (cp : Caps) (v : V) (hS : Shared (mkCfg o cp) v) :
+    ∃ env, expand (serializeE (emitOf Generated.serArms) o cp v) [] =
+      some (serializeE (emitOf Generated.serArms) { o with localRef := false } cp v, env) := by
+  rw [serializeE_ok _ C10_arms_ok, serializeE_ok _ C10_arms_ok]; exact C10_refs_wellformed o cp v hS
+
+theorem C10_impl_roundtrip (o : Opts) (cp : Caps) (v : V) (hS : Shared (mkCfg o cp) v) (hf : Frag (mkCfg o cp) v) :
+    ∃ r, deserialize (serializeE (emitOf Generated.serArms) o cp v) = .ok r ∧ r.abs = v.abs := by
+  rw [serializeE_ok _ C10_arms_ok]; exact C10_roundtrip_partial o cp v hS hf
+
+/-! #### the side condition is not idle: tables that violate it break the stream laws (constructive witnesses)
+
+`['AQID', bin, bin]` where `bin` is one Binary object holding 01 02 03, rich_data=false, no binary support, threshold 0. -/
+
 def danglingWitness : V := .arr 1 [.str "AQID", .bin 2 [1, 2, 3], .bin 2 [1, 2, 3]]
-def danglingCfg : Cfg := mkCfg ⟨false, true, 1⟩ ⟨false, true, 0⟩
 
-/-- before the fix: the second `bin` is `AddRef(2)` although only positions 0 (the array) and 1 (the string) exist -/
-example : (toDataBefore danglingCfg 1 danglingWitness St.init).1 = .arr [.add (.str "AQID"), .ref 1, .ref 2] := by rfl
-example : expand (toDataBefore danglingCfg 1 danglingWitness St.init).1 [] = none := by rfl
-example : ∃ e, collect (toDataBefore danglingCfg 1 danglingWitness St.init).1 [] = .error e := ⟨.badRef, by rfl⟩
+/-- the code before the fix "serializer recorded a position for a value whose emitter produced only a back-reference":
+    `process` = recordBefore.  The Binary is emitted as its base64 text through `toData(level, string)`; that string was
+    seen before, so the emitter produces only `AddRef(1)` and no position — but the Binary was recorded at the position
+    the NEXT value takes: the second `bin` is `AddRef(2)` although only positions 0 and 1 exist. -/
+def tblBefore : SerArms := { Generated.serArms with process := .recordBefore }
+example : SerArmsOK tblBefore = false := by decide
+example : serializeE (emitOf tblBefore) ⟨false, true, 1⟩ ⟨false, true, 0⟩ danglingWitness =
+    .arr [.add (.str "AQID"), .ref 1, .ref 2] := by rfl
+example : expand (serializeE (emitOf tblBefore) ⟨false, true, 1⟩ ⟨false, true, 0⟩ danglingWitness) [] = none := by rfl
+example : ∃ e, collect (serializeE (emitOf tblBefore) ⟨false, true, 1⟩ ⟨false, true, 0⟩ danglingWitness) [] = .error e :=
+  ⟨.badRef, by rfl⟩
 /-- after the fix: both occurrences refer to position 1 -/
-example : serialize ⟨false, true, 1⟩ ⟨false, true, 0⟩ danglingWitness = .arr [.add (.str "AQID"), .ref 1, .ref 1] := by rfl
+example : serializeE (emitOf Generated.serArms) ⟨false, true, 1⟩ ⟨false, true, 0⟩ danglingWitness =
+    .arr [.add (.str "AQID"), .ref 1, .ref 1] := by rfl
+
+/-- Appendix E mutant "addData: do not increment refIndex": the reference to the shared array names the wrong position -/
+def tblNoIncr : SerArms := { Generated.serArms with addData := [.consume "Add"] }
+example : SerArmsOK tblNoIncr = false := by decide
+example : serializeE (emitOf tblNoIncr) ⟨true, true, 2⟩ ⟨true, true, 0⟩ (.arr 1 [.int 7, .arr 2 [.int 1], .arr 2 [.int 1]]) =
+    .arr [.add (.int 7), .arr [.add (.int 1)], .ref 1] := by rfl
+example : expand (serializeE (emitOf tblNoIncr) ⟨true, true, 2⟩ ⟨true, true, 0⟩ (.arr 1 [.int 7, .arr 2 [.int 1], .arr 2 [.int 1]])) [] =
+    some (.arr [.add (.int 7), .arr [.add (.int 1)], .add (.int 7)], [some (.arr [.add (.int 7), .arr [.add (.int 1)], .add (.int 7)]),
+      some (.add (.int 7)), some (.arr [.add (.int 1)]), some (.add (.int 1))]) := by rfl
+
+/-- … and an increment placed AFTER the consumer call of a container (children see the stale counter) -/
+def tblLate : SerArms := { Generated.serArms with addArray := [.consume "AddArray", .incr] }
+example : SerArmsOK tblLate = false := by decide
+example : expand (serializeE (emitOf tblLate) ⟨true, true, 2⟩ ⟨true, true, 0⟩
+    (.arr 1 [.arr 2 [.int 1], .arr 2 [.int 1]])) [] = none := by rfl
 
 end Pcore.Ser
